@@ -21,14 +21,14 @@ def run(rep):
     broken += verif.build_topic(go_pkgs=("kwnames",))
     found = False
     if not any(b["obligation"].startswith("build:") for b in broken):
-        rc, out = verif.sh([os.path.join(verif.BUILD, "kwnames")], timeout=600)
+        rc, out = verif.sh([os.path.join(verif.BUILD, "kwnames"), "-x"], timeout=900)
         lines = out.splitlines()
         bad = [l for l in lines if l.startswith("BAD")]
         summ = [l for l in lines if l.startswith("SUMMARY")]
         for l in bad[:10]:
             found = True
             p = l.split("\t")
-            rep.violation("input", "keyword %s at %s spelled %s: %s" % (p[1], p[2], p[3], p[4][:200]), {"keyword": p[1], "position": p[2], "spelling": p[3], "detail": p[4][:2000]},
+            rep.violation("input", "keyword %s at %s spelled %s: %s" % (p[1], p[2], p[3], " ".join(p[4:])[:300]), {"keyword": p[1], "position": p[2], "spelling": p[3], "detail": p[4][:2000]},
                           input_hex=("%s|%s|%s" % (p[1], p[2], p[3])).encode().hex())
         if rc != 0 or not summ:
             broken.append({"obligation": "harness:kwnames", "detail": out[-500:]})
@@ -36,7 +36,8 @@ def run(rep):
         rep.coverage.update({
             "evaluations": int(nums.get("probes", 0)), "distinct_nontrivial": int(nums.get("probes", 0)) - int(nums.get("keywords", 0)),
             "rule": "exhaustive over the keyword tokens of the current token table: table clauses per keyword; `SELECT t.<kw> FROM t`, `SELECT 1 AS <kw>`, `SELECT 1 FROM t AS <kw>` in upper, lower and two mixed letter cases, "
-                    "each must parse without error and show `Identifier t.<sp>` / `Literal UInt64_1 (alias <sp>)` / `TableIdentifier t (alias <sp>)` with the user's spelling; distinct_nontrivial = naming probes",
+                    "each must parse without error and show `Identifier t.<sp>` / `Literal UInt64_1 (alias <sp>)` / `TableIdentifier t (alias <sp>)` with the user's spelling; the same three probes inside 11 embedding contexts (subquery, CTE, CREATE VIEW/TABLE ... AS, INSERT SELECT, UNION branch, EXPLAIN, IN subquery, parentheses); "
+                    "and the extended product: the name after a dot behind 5 kinds of qualifier (table, db.table, keyword alias, subquery alias) in 3 expression positions; the column alias behind 19 kinds of aliased expression (literals, calls, arithmetic, array/tuple literals, :: and CAST, subquery, CASE, NULL ...) x 10 followers (comma, FROM, WHERE, UNION, ORDER BY, FORMAT, SETTINGS, LIMIT, WITH TOTALS); the table alias behind 4 kinds of table expression x 16 followers (WITH TOTALS, JOIN, SAMPLE, PREWHERE, ARRAY JOIN, FINAL ...): each must parse and show the user's spelling; distinct_nontrivial = naming probes",
             "samples": [l for l in lines[200:204]], "keywords": int(nums.get("keywords", 0)), "exhaustive": True, "trusted_base": TRUSTED,
         })
     import searchcommon
